@@ -691,6 +691,14 @@ async def read_share_chunk(
     insofar as it doesn't always require a range.  In practice a range is
     always provided by the current callers.
     """
+    if length == 0:
+        # An HTTP Range header cannot express an empty range (building one
+        # raises ValueError).  Ask for a single byte instead, so that a
+        # missing share is still reported, and return none of it.
+        await read_share_chunk(
+            client, share_type, storage_index, share_number, offset, 1
+        )
+        return b""
     url = client.relative_url(
         "/storage/v1/{}/{}/{}".format(
             share_type, _encode_si(storage_index), share_number
